@@ -60,7 +60,7 @@ ASSUMPTIONS = [
 ]
 
 KINDS = ("logistic", "linear", "shared_speed_logistic", "joint")
-ALL_KINDS = KINDS + ("mixture_logistic",)
+ALL_KINDS = KINDS + ("mixture_logistic",)  # + the benchmark kinds "lme" and "constant", see bench_cases
 IDS = ["a", "b", "c", "d", "e"]
 FEATSETS = {
     "plain": ["Y0", "Y1", "Y2", "Y3"],
@@ -163,13 +163,50 @@ def hand_cases(tier, seed):
     return cases
 
 
+BENCH_NAMES = {"lme": ["lme", "my-model", "Lme"], "constant": ["constant", "my-model", "Constant"]}
+PREDICTION_TYPES = ("last", "last-known", "max", "mean")
+
+
+def bench_cases(tier, seed):
+    """The two benchmark kinds: `lme` (fitted with lme_fit) and `constant` (no fit; personalised or not)."""
+    thorough = tier != "quick"
+    cases = []
+
+    def combos(kind, full):
+        out = []
+        for nm in BENCH_NAMES[kind]:
+            for ft in FEATSETS:
+                if full or nm == kind or ft == "plain":
+                    out.append((nm, ft))
+        return out
+
+    for ptype in (None,) + PREDICTION_TYPES:  # None: never personalised (no features yet)
+        for dim in (1, 2, 3):
+            if ptype is None and dim > 1:
+                continue
+            for nm, ft in combos("constant", True):
+                if ptype is None and ft != "plain":
+                    continue
+                cases.append(dict(src="bench", kind="constant", ptype=ptype, dim=dim, name=nm, feat=ft))
+    for cohort in ("regular", "catalogue"):
+        for slope in (False, True):
+            for indep in (False, True):
+                for nm, ft in combos("lme", thorough) if (thorough or cohort == "regular") else [("lme", "plain")]:
+                    cases.append(dict(src="bench", kind="lme", slope=slope, indep=indep, cohort=cohort, dim=1, name=nm, feat=ft))
+    return cases
+
+
 def chunk(cases, size):
     return [cases[i: i + size] for i in range(0, len(cases), size)]
 
 
 def bounds(tier):
     return {
-        "kinds": list(ALL_KINDS),
+        "kinds": list(ALL_KINDS) + ["lme", "constant"],
+        "benchmark_kinds": "lme: with_random_slope_age x force_independent_random_effects (algorithm option) x 2 cohorts "
+                           "(24 regular visits; the 5-individual catalogue cohort with undefined standard errors) x names x "
+                           "feature namings; constant: never personalised, or personalised with every prediction_type x "
+                           "dimension 1..3 x names x feature namings",
         "dimension": [1, 2, 3],
         "source_dimension": "not given (default) and every value 0..dimension-1",
         "noise": [None, "gaussian-scalar", "gaussian-diagonal", "bernoulli (logistic kinds)"],
@@ -189,7 +226,11 @@ def bounds(tier):
 def shards(tier, seed):
     fc = fit_cases(tier, seed)
     hc = hand_cases(tier, seed)
-    out = [{"cases": c} for c in chunk(hc, 160)] + [{"cases": c} for c in chunk(fc, 24)]
+    bc = bench_cases(tier, seed)
+    out = [{"cases": c} for c in chunk(hc, 160)]
+    out += [{"cases": c} for c in chunk([c for c in bc if c["kind"] == "constant"], 120)]
+    out += [{"cases": c} for c in chunk([c for c in bc if c["kind"] == "lme"], 6)]
+    out += [{"cases": c} for c in chunk(fc, 24)]
     # simplest first: hand-written before fits (already), small dimension first inside (enumeration order)
     return out
 
@@ -217,6 +258,10 @@ def features_of(case):
 
 def config_feature(case):
     """Minimal input feature used in signatures that are not about names."""
+    if case["src"] == "bench":
+        if case["kind"] == "lme":
+            return f"lme, with_random_slope_age={case['slope']}"
+        return "constant"
     kind, dim, ns = case["kind"], case["dim"], case["ns"]
     parts = [kind]
     if case["src"] == "fit" and dim == 1 and ns is None and case["dimgiven"] == "none":
@@ -333,6 +378,8 @@ def doc_diff(a, b, path=""):
         out.append((path, "scalar vs one-element list"))
         return out + doc_diff(x, y, path)
     if isinstance(a, (int, float)) and isinstance(b, (int, float)) and not isinstance(a, bool) and not isinstance(b, bool):
+        if a != a and b != b:
+            return out  # NaN on both sides (non-strict JSON written for undefined standard errors)
         if a != b or type(a) is not type(b):
             cls = "precision" if np.float32(a) == np.float32(b) else "value"
             if a == b:
@@ -619,13 +666,13 @@ def load_file(path, model, judge, case, site_s, tmpdir, tag):
     return m2, True
 
 
-def compare_documents(ref_doc, ref_text, doc2, text2, judge, case, counts, generation):
+def compare_documents(ref_doc, ref_text, doc2, text2, judge, case, counts, generation, tolerate=True):
     feat, ncls = config_feature(case), name_class(case["name"], case["kind"])
     site = "save(load(file))" if generation == 2 else "save(load(save(load(file))))"
     if ref_text is not None and text2 == ref_text:
         return
     diffs = doc_diff(ref_doc, doc2)
-    if generation == 2:
+    if generation == 2 and tolerate:
         # a fit may leave double precision values and 0-d tensors in the object; the reloaded object holds their
         # float32 / declared-shape versions.  "To single precision" is what the property asks of the values, so these
         # two differences are counted, not reported; the next generation must then be reproduced byte for byte.
@@ -648,6 +695,10 @@ def compare_documents(ref_doc, ref_text, doc2, text2, judge, case, counts, gener
 
 def run_case(case, tmpdir):
     """Returns dict(violations, outcome, nontrivial, counts)."""
+    if case["src"] == "bench":
+        with warnings.catch_warnings():
+            warnings.simplefilter("ignore")
+            return run_bench_case(case, tmpdir)
     judge = Judge()
     counts = {}
     kind, name = case["kind"], case["name"]
@@ -738,6 +789,162 @@ def run_case(case, tmpdir):
     status = "roundtrip-ok" if not judge.viol else "roundtrip-violations"
     dt = "f64" if any(v.dtype == torch.float64 for v in model.parameters.values()) else "f32"
     return dict(violations=judge.viol, outcome=f"{case['src']}:{kind}:{status}:{dt}", nontrivial=ok_all, counts=counts)
+
+
+# ------------------------------------------------------------------------------------------------------------
+# benchmark kinds (lme, constant): round trip only, behaviour compared through personalize + estimate
+
+def bench_frame(case):
+    import pandas as pd
+
+    feats = FEATSETS[case["feat"]][: case["dim"]]
+    if case["kind"] == "lme" and case["cohort"] == "regular":
+        rows = []
+        for i in range(6):
+            for j in range(4):
+                rows.append((f"s{i}", float(60 + 3 * j + i), 0.1 * i + 0.02 * j * (1 + 0.3 * i) + 0.01 * ((i * j) % 3)))
+        return pd.DataFrame(rows, columns=["ID", "TIME", feats[0]])
+    df = cohort_frame(IDS, case["dim"])
+    return df.rename(columns={f"Y{i}": feats[i] for i in range(case["dim"])})
+
+
+def bench_config(model):
+    c = {"class": type(model).__name__, "features": None if model.features is None else list(model.features),
+         "dimension": model.dimension, "hyperparameters": {k: np.asarray(v).tolist() for k, v in (model.hyperparameters or {}).items()}}
+    if hasattr(model, "with_random_slope_age"):
+        c["with_random_slope_age"] = model.with_random_slope_age
+    return c
+
+
+def same_exact(a, b):
+    """Equality of two parameter values / result arrays as float64 numbers, NaN == NaN, shape-insensitive."""
+    a = np.asarray(a, dtype=np.float64).reshape(-1)
+    b = np.asarray(b, dtype=np.float64).reshape(-1)
+    return a.shape == b.shape and bool(np.array_equal(a, b, equal_nan=True))
+
+
+def ip_table(ip):
+    df = ip.to_dataframe()
+    return {"index": [str(i) for i in df.index], "columns": [str(c) for c in df.columns], "values": df.to_numpy(dtype=np.float64)}
+
+
+def bench_behaviour(model, case, data, ip_given=None):
+    """(individual parameters table, estimates on an age grid) -- what a user gets out of the model."""
+    with quiet():
+        if case["kind"] == "lme":
+            ip = model.personalize(data, "lme_personalize")
+        elif ip_given is None:
+            ip = model.personalize(data, "constant_prediction", prediction_type=case["ptype"])
+        else:
+            ip = ip_given
+        ages = {i: [55.0, 70.0, 71.5, 90.0] for i in ip_table(ip)["index"]}
+        est = model.estimate(ages, ip)
+    return ip, {i: np.asarray(v, dtype=np.float64) for i, v in est.items()}
+
+
+def run_bench_case(case, tmpdir):
+    judge, counts = Judge(), {}
+    kind, name = case["kind"], case["name"]
+    feat = config_feature(case)
+    data, stage = None, "model_factory"
+    try:
+        with quiet():
+            if kind == "lme":
+                model = model_factory("lme", instance_name=name, with_random_slope_age=case["slope"])
+                stage = "fit"
+                data = Data.from_dataframe(bench_frame(case))
+                model.fit(data, "lme_fit", force_independent_random_effects=case["indep"])
+                counts["lme_fits"] = 1
+            else:
+                model = model_factory("constant", instance_name=name)
+                if case["ptype"] is not None:
+                    data = Data.from_dataframe(bench_frame(case))
+        stage = "personalize/estimate"
+        ip1, est1 = (None, None) if data is None else bench_behaviour(model, case, data)
+    except CaseTimeout:
+        raise
+    except Exception as e:
+        judge.add("build", type(e).__name__, feat, f"{stage}: {exc_text(e)}")
+        return dict(violations=judge.viol, outcome=f"build-raise:{type(e).__name__}", nontrivial=False, counts=counts)
+    conf1, params1 = bench_config(model), dict(model.parameters or {})
+    ok_all = True
+    p1 = os.path.join(tmpdir, "b1.json")
+    try:
+        model.save(p1)
+        text1 = open(p1).read()
+        doc1 = json.loads(text1)  # standard errors may be NaN: python's json dialect, as the library itself reads it
+    except Exception as e:
+        judge.add("save", type(e).__name__, feat, exc_text(e))
+        return dict(violations=judge.viol, outcome="save-raise", nontrivial=False, counts=counts)
+    counts["files"] = 1
+    if "NaN" in text1:
+        counts["files with NaN tokens"] = 1
+    m2, repaired = load_file(p1, model, judge, case, "save", tmpdir, "b1")
+    if m2 is None:
+        return dict(violations=judge.viol, outcome=f"bench:{kind}:not-reloaded", nontrivial=False, counts=counts)
+    counts["reloads"] = 1
+    same_conf = True
+    try:
+        conf2, params2 = bench_config(m2), dict(m2.parameters or {})
+    except Exception as e:
+        judge.add("BaseModel.load", f"reloaded model cannot be read: {type(e).__name__}", feat, exc_text(e))
+        return dict(violations=judge.viol, outcome=f"bench:{kind}:unreadable", nontrivial=False, counts=counts)
+    for key in conf1:
+        if conf1[key] != conf2.get(key):
+            same_conf = False
+            judge.add("BaseModel.load", f"{key} differs after reload", feat, key, expected=conf1[key], observed=conf2.get(key))
+    if list(params1) != list(params2):
+        judge.add("BaseModel.load", "parameters names differ after reload", feat, "parameters", expected=list(params1),
+                  observed=list(params2))
+    else:
+        for k in params1:
+            if not same_exact(params1[k], params2[k]):
+                judge.add("BaseModel.load", "parameters differ after reload (double precision)", feat, k,
+                          expected=np.asarray(params1[k]).tolist(), observed=np.asarray(params2[k]).tolist())
+                break
+    if same_conf and data is not None:
+        # the configuration came back: then what the user computes with the reloaded object must be the same numbers
+        # (same double precision parameters through the same closed-form code; 1e-12 relative for the linear algebra)
+        try:
+            ip2, est2 = bench_behaviour(m2, case, data)
+            _, est2_given = bench_behaviour(m2, case, data, ip_given=ip1) if kind == "constant" else (None, est2)
+        except Exception as e:
+            judge.add("BaseModel.load", f"personalize/estimate of the reloaded model raises {type(e).__name__}", feat, exc_text(e))
+        else:
+            t1, t2 = ip_table(ip1), ip_table(ip2)
+            if (t1["index"], t1["columns"]) != (t2["index"], t2["columns"]) or not np.allclose(
+                    t1["values"], t2["values"], rtol=1e-12, atol=1e-14, equal_nan=True):
+                judge.add("BaseModel.load", "personalised individual parameters differ after reload", feat, "personalize",
+                          expected=t1["values"].tolist(), observed=t2["values"].tolist())
+            for e2 in (est2, est2_given):
+                bad = [i for i in est1 if i not in e2 or est1[i].shape != e2[i].shape
+                       or not np.allclose(est1[i], e2[i], rtol=1e-12, atol=1e-14, equal_nan=True)]
+                if bad or list(est1) != list(e2):
+                    judge.add("BaseModel.load", "estimates differ after reload", feat, f"estimate for {bad[:3]}",
+                              expected={i: est1[i].tolist() for i in bad[:2]}, observed={i: e2[i].tolist() for i in bad[:2] if i in e2})
+                    break
+    # ---- save again, and once more: byte for byte (parameters are doubles, written with all their digits)
+    try:
+        p2, p3 = os.path.join(tmpdir, "b2.json"), os.path.join(tmpdir, "b3.json")
+        m2.save(p2)
+        text2 = open(p2).read()
+        doc2 = json.loads(text2)
+        with quiet():
+            m3 = BaseModel.load(p2)
+        m3.save(p3)
+        text3 = open(p3).read()
+        doc3 = json.loads(text3)
+    except Exception as e:
+        judge.add("save of the reloaded model", type(e).__name__, feat, exc_text(e))
+        ok_all = False
+    else:
+        if repaired:
+            compare_documents(dict(doc1, name=kind), None, doc2, text2, judge, case, counts, 2, tolerate=False)
+        else:
+            compare_documents(doc1, text1, doc2, text2, judge, case, counts, 2, tolerate=False)
+        compare_documents(doc2, text2, doc3, text3, judge, case, counts, 3)
+    status = "roundtrip-ok" if not judge.viol else "roundtrip-violations"
+    return dict(violations=judge.viol, outcome=f"bench:{kind}:{status}", nontrivial=ok_all, counts=counts)
 
 
 def run_shard(shard):
